@@ -58,7 +58,7 @@ theorem C13_retry_only_before_fn (s : St K V) (h : Reach p s) (u : Tid) (hfn : (
 /-! ### Non-vacuity: a reachable state with a resizer in the copy phase and a parked waiter exists in the model
 (the scheduler exploration replays such states on the real code); here: the initial state is reachable and the
 hypotheses of `C13_deadlock_free` are satisfiable after one step. -/
-def exP : Params Nat := { growThr := fun n => n * 9 / 4, shrinkThr := fun n => n * 3 / 128, bkt := fun _ k => k, minLen := 2, growOnly := false }
+def exP : Params Nat := { growThr := fun n => n * 9 / 4, shrinkThr := fun n => n * 3 / 128, bkt := fun _ k => k, minLen := 2, growOnly := false, stripes := fun _ => 8 }
 
 example : Reach (V := Nat) exP (init exP) := ⟨[], rfl⟩
 example : ∃ s, run (V := Nat) exP (init exP) [(0, { op := some (.dc 1 (fun _ => (5, false)) false false) }), (0, {}), (0, {})] = some s ∧
